@@ -826,5 +826,262 @@ theorem libNormal_step {f : Font} (hl : LibNormal f) (op : Op) (hop : op ≠ .se
           · exact keep _ rfl
       · exact hl
 
+/-! ## Missing names never appear, stale names never appear -/
+
+theorem exists_newLayer {f : Font} {name : String} (hc : AL.contains f.layers name = false) (n : Name) :
+    Exists (setLayer f name { glyphs := [], observed := true }) n ↔ Exists f n := by
+  have hnone : AL.get? f.layers name = none := by
+    unfold AL.contains at hc
+    cases h : AL.get? f.layers name with
+    | none => rfl
+    | some x => simp [h] at hc
+  rw [exists_setLayer]
+  constructor
+  · rintro (h | h)
+    · exact exists_of_elsewhere h
+    · simp at h
+  · rintro ⟨L2, l2, h2, hm⟩
+    refine Or.inl ⟨L2, l2, ?_, h2, hm⟩
+    intro e; subst e; rw [hnone] at h2; cases h2
+
+theorem exists_of_exists_erase {f : Font} (hn : (AL.keys f.layers).Nodup) {name : String} {n : Name}
+    (h : Exists { f with layers := AL.erase f.layers name } n) : Exists f n := by
+  obtain ⟨L2, l2, h2, hm⟩ := h
+  simp only at h2
+  by_cases e : name = L2
+  · subst e
+    rw [AL.get?_erase_self_of_nodup _ _ hn] at h2; cases h2
+  · rw [AL.get?_erase_ne _ _ _ e] at h2
+    exact ⟨L2, l2, h2, hm⟩
+
+/-- No operation through which the font updates the order makes a name *missing*: a glyph name
+that exists afterwards and is not in the order existed before and was not in the order before. -/
+theorem missing_step {f : Font} (hw : WF f) (op : Op) (hu : op.isUpdate = true) (n : Name)
+    (hex : Exists (step f op).1 n) (hno : n ∉ glyphOrder (step f op).1) :
+    Exists f n ∧ n ∉ glyphOrder f := by
+  have create : ∀ (L : String) (g : Name), Exists (newGlyph f L g).1 n →
+      n ∉ glyphOrder (newGlyph f L g).1 → Exists f n ∧ n ∉ glyphOrder f := by
+    intro L g hex hno
+    cases hget : AL.get? f.layers L with
+    | none => simp only [newGlyph, hget] at hex hno; exact ⟨hex, hno⟩
+    | some l =>
+      obtain ⟨_, hl, ho⟩ := newGlyph_spec hw hget g
+      rw [ho] at hno
+      unfold specCreate at hno
+      rw [mem_appendIfAbsent, not_or] at hno
+      rw [exists_congr hl, exists_setLayer] at hex
+      refine ⟨?_, hno.1⟩
+      rcases hex with h | h
+      · exact exists_of_elsewhere h
+      · simp only [mem_addName] at h
+        rcases h with h | h
+        · exact ⟨L, l, hget, h⟩
+        · exact absurd h hno.2
+  cases op with
+  | setOrder v => simp [Op.isUpdate] at hu
+  | setLib v => simp [Op.isUpdate] at hu
+  | newLayer name =>
+    simp only [step, newLayer] at hex hno
+    split at hex
+    · simp only [*] at hno; exact ⟨hex, by simpa using hno⟩
+    · rename_i hc
+      simp only [hc] at hno
+      exact ⟨(exists_newLayer (by simpa using hc) n).mp hex, hno⟩
+  | delLayer name =>
+    simp only [step, delLayer] at hex hno
+    split at hex
+    · rename_i hc
+      simp only [hc] at hno
+      exact ⟨exists_of_exists_erase hw.names hex, hno⟩
+    · rename_i hc
+      simp only [hc] at hno
+      exact ⟨hex, hno⟩
+  | newGlyph L g => exact create L g hex hno
+  | insertGlyph L g => exact create L g hex hno
+  | delGlyph L g =>
+    simp only [step] at hex hno
+    cases hget : AL.get? f.layers L with
+    | none => simp only [delGlyph, hget] at hex hno; exact ⟨hex, hno⟩
+    | some l =>
+      by_cases hm : g ∈ l.glyphs
+      · obtain ⟨_, hl, b, hb, ho⟩ := delGlyph_spec hw hget hm
+        rw [ho] at hno
+        rw [exists_congr hl, exists_setLayer] at hex
+        simp only [mem_removeName] at hex
+        have hexf : Exists f n := by
+          rcases hex with h | h
+          · exact exists_of_elsewhere h
+          · exact ⟨L, l, hget, h.1⟩
+        refine ⟨hexf, ?_⟩
+        unfold specDelete at hno
+        cases b with
+        | true => simpa using hno
+        | false =>
+          simp only [Bool.false_eq_true, if_false] at hno
+          have hne : n ≠ g := by
+            intro e; subst e
+            rcases hex with h | h
+            · exact absurd (hb.mpr h) (by simp)
+            · exact h.2 rfl
+          rwa [mem_eraseFirst_of_ne hne] at hno
+      · simp only [delGlyph, hget, hm, if_false] at hex hno; exact ⟨hex, hno⟩
+  | rename L old new =>
+    simp only [step] at hex hno
+    cases hget : AL.get? f.layers L with
+    | none => simp only [rename, hget] at hex hno; exact ⟨hex, hno⟩
+    | some l =>
+      by_cases hm : old ∈ l.glyphs
+      · by_cases hne : old = new
+        · subst hne; simp only [rename, hget, hm, if_true] at hex hno; exact ⟨hex, hno⟩
+        · obtain ⟨_, hl, b, hb, ho⟩ := rename_spec hw hget hm hne
+          rw [ho] at hno
+          rw [exists_congr hl, exists_setLayer] at hex
+          simp only [mem_addName, mem_removeName] at hex
+          have hn_new : n ≠ new := by
+            intro e; subst e; exact hno (mem_specRename_new _ hne b)
+          have hexf : Exists f n := by
+            rcases hex with h | h | h
+            · exact exists_of_elsewhere h
+            · exact ⟨L, l, hget, h.1⟩
+            · exact absurd h hn_new
+          refine ⟨hexf, ?_⟩
+          cases b with
+          | true =>
+            unfold specRename at hno
+            simp only [if_true] at hno
+            rw [mem_appendIfAbsent, not_or] at hno
+            exact hno.1
+          | false =>
+            have hn_old : n ≠ old := by
+              intro e; subst e
+              rcases hex with h | h | h
+              · exact absurd (hb.mpr h) (by simp)
+              · exact h.2 rfl
+              · exact hne h
+            rwa [mem_specRename_of_ne _ hn_old hn_new] at hno
+      · simp only [rename, hget, hm, if_false] at hex hno; exact ⟨hex, hno⟩
+
+/-- No glyph-set operation makes a name *stale* when the order has no duplicates: a name that is
+in the order afterwards although no layer has such a glyph was already in that situation before. -/
+theorem stale_step {f : Font} (hw : WF f) (hnd : (glyphOrder f).Nodup) (op : Op)
+    (hg : op.isGlyphOp = true) (n : Name)
+    (hin : n ∈ glyphOrder (step f op).1) (hnex : ¬ Exists (step f op).1 n) :
+    n ∈ glyphOrder f ∧ ¬ Exists f n := by
+  have hcount : ∀ x, (glyphOrder f).count x ≤ 1 := List.nodup_iff_count.mp hnd
+  have create : ∀ (L : String) (g : Name), n ∈ glyphOrder (newGlyph f L g).1 →
+      ¬ Exists (newGlyph f L g).1 n → n ∈ glyphOrder f ∧ ¬ Exists f n := by
+    intro L g hin hnex
+    cases hget : AL.get? f.layers L with
+    | none => simp only [newGlyph, hget] at hin hnex; exact ⟨hin, hnex⟩
+    | some l =>
+      obtain ⟨_, hl, ho⟩ := newGlyph_spec hw hget g
+      rw [ho] at hin
+      unfold specCreate at hin
+      rw [mem_appendIfAbsent] at hin
+      rw [exists_congr hl, exists_setLayer] at hnex
+      simp only [mem_addName, not_or] at hnex
+      refine ⟨?_, ?_⟩
+      · rcases hin with h | h
+        · exact h
+        · exact absurd h hnex.2.2
+      · intro hex
+        rcases (exists_split hget n).mp hex with h | h
+        · exact hnex.1 h
+        · exact hnex.2.1 h
+  cases op with
+  | setOrder v => simp [Op.isGlyphOp] at hg
+  | setLib v => simp [Op.isGlyphOp] at hg
+  | newLayer name => simp [Op.isGlyphOp] at hg
+  | delLayer name => simp [Op.isGlyphOp] at hg
+  | newGlyph L g => exact create L g hin hnex
+  | insertGlyph L g => exact create L g hin hnex
+  | delGlyph L g =>
+    simp only [step] at hin hnex
+    cases hget : AL.get? f.layers L with
+    | none => simp only [delGlyph, hget] at hin hnex; exact ⟨hin, hnex⟩
+    | some l =>
+      by_cases hm : g ∈ l.glyphs
+      · obtain ⟨_, hl, b, hb, ho⟩ := delGlyph_spec hw hget hm
+        rw [ho] at hin
+        rw [exists_congr hl, exists_setLayer] at hnex
+        simp only [mem_removeName, not_or, not_and, Decidable.not_not] at hnex
+        unfold specDelete at hin
+        cases b with
+        | true =>
+          simp only [if_true] at hin
+          refine ⟨hin, ?_⟩
+          intro hex
+          rcases (exists_split hget n).mp hex with h | h
+          · exact hnex.1 h
+          · have e := hnex.2 h
+            subst e
+            exact hnex.1 (hb.mp rfl)
+        | false =>
+          simp only [Bool.false_eq_true, if_false] at hin
+          have hne : n ≠ g := by
+            intro e; subst e; exact not_mem_eraseFirst_self (hcount n) hin
+          refine ⟨mem_of_mem_eraseFirst hin, ?_⟩
+          intro hex
+          rcases (exists_split hget n).mp hex with h | h
+          · exact hnex.1 h
+          · exact hne (hnex.2 h)
+      · simp only [delGlyph, hget, hm, if_false] at hin hnex; exact ⟨hin, hnex⟩
+  | rename L old new =>
+    simp only [step] at hin hnex
+    cases hget : AL.get? f.layers L with
+    | none => simp only [rename, hget] at hin hnex; exact ⟨hin, hnex⟩
+    | some l =>
+      by_cases hm : old ∈ l.glyphs
+      · by_cases hne : old = new
+        · subst hne; simp only [rename, hget, hm, if_true] at hin hnex; exact ⟨hin, hnex⟩
+        · obtain ⟨_, hl, b, hb, ho⟩ := rename_spec hw hget hm hne
+          rw [ho] at hin
+          rw [exists_congr hl, exists_setLayer] at hnex
+          simp only [mem_addName, mem_removeName, not_or, not_and, Decidable.not_not] at hnex
+          have hn_new : n ≠ new := hnex.2.2
+          cases b with
+          | true =>
+            unfold specRename at hin
+            simp only [if_true] at hin
+            rw [mem_appendIfAbsent] at hin
+            refine ⟨hin.resolve_right hn_new, ?_⟩
+            intro hex
+            rcases (exists_split hget n).mp hex with h | h
+            · exact hnex.1 h
+            · have e := hnex.2.1 h
+              subst e
+              exact hnex.1 (hb.mp rfl)
+          | false =>
+            have hn_old : n ≠ old := by
+              intro e; subst e; exact not_mem_specRename_old hne (hcount n) hin
+            rw [mem_specRename_of_ne _ hn_old hn_new] at hin
+            refine ⟨hin, ?_⟩
+            intro hex
+            rcases (exists_split hget n).mp hex with h | h
+            · exact hnex.1 h
+            · exact hn_old (hnex.2.1 h)
+      · simp only [rename, hget, hm, if_false] at hin hnex; exact ⟨hin, hnex⟩
+
+/-! ## Runs -/
+
+theorem run_append (f : Font) (ops1 ops2 : List Op) : run f (ops1 ++ ops2) = run (run f ops1) ops2 := by
+  induction ops1 generalizing f with
+  | nil => rfl
+  | cons op r ih => simp [run, ih]
+
+/-- an invariant of single steps (for a class of operations) is an invariant of runs -/
+theorem run_preserves (P : Font → Prop) (ok : Op → Prop)
+    (hstep : ∀ f op, ok op → P f → P (step f op).1) (f : Font) (ops : List Op)
+    (hops : ∀ op ∈ ops, ok op) (h : P f) : P (run f ops) := by
+  induction ops generalizing f with
+  | nil => exact h
+  | cons op r ih =>
+    simp only [run]
+    exact ih _ (fun o ho => hops o (List.mem_cons_of_mem _ ho))
+      (hstep f op (hops op (List.mem_cons_self ..)) h)
+
+theorem wf_run {f : Font} (hw : WF f) (ops : List Op) : WF (run f ops) :=
+  run_preserves WF (fun _ => True) (fun _ op _ h => wf_step h op) f ops (fun _ _ => trivial) hw
+
 end GlyphOrder
 end DefconModel
